@@ -1,6 +1,7 @@
 /* Public-API harness for C19 (yang-library round trip, change counter, modules hash).
  *
- *   <id> ctx ylhistory <spec-hex>  ->  <id> ok <step-token>* Y<rc>|<snapshot> Z<bits>
+ *   <id> ctx ylhistory <spec-hex>  ->  <id> ok <step-token>* X<yang-library data> Y<rc>|<snapshot> Z<bits>
+ *       X: module-set/module, import-only-module (features, submodules, deviations) and content-id of the generated data
  *       the script of api_ctx.c (plus `W <dir>`: directory holding the module sources as files <name>[@<rev>].yang);
  *       after the last step: ly_ctx_get_yanglib_data() -> lyd_validate_all() ->
  *       Y: ly_ctx_new_yldata() into a fresh context served by the same import callback; snapshot as for a step
@@ -107,6 +108,76 @@ yl_laws(struct ly_ctx *ctx, const char *dir, int with_internal)
     ly_ctx_destroy(c3);
 }
 
+static int
+is_internal(const struct ly_ctx *ctx, const char *name)
+{
+    uint32_t i = 0, n = ly_ctx_internal_modules_count(ctx);
+    const struct lys_module *m;
+
+    while ((i < n) && (m = ly_ctx_get_module_iter(ctx, &i))) {
+        if (!strcmp(m->name, name)) return 1;
+    }
+    return 0;
+}
+
+/* X: the yang-library data themselves — module-set/module (name@revision[features]{submodules}<deviations>),
+ * module-set/import-only-module (name@revision{submodules}), content-id — read from the data tree, in document order,
+ * internal modules left out; compared with the model's ylExport token for token */
+static void
+yl_dump(struct ly_ctx *ctx)
+{
+    struct lyd_node *yl = NULL, *e, *ch, *sc;
+    struct ly_set *set = NULL;
+    const char *lists[] = {"module", "import-only-module"};
+    char path[160];
+    uint32_t i;
+    int k, first;
+
+    if (ly_ctx_get_yanglib_data(ctx, &yl, "%u", (unsigned)(uint16_t)(ly_ctx_get_change_count(ctx) - g_cc0)) || !yl) { oput(" Xg0"); return; }
+    oput(" X");
+    for (k = 0; k < 2; k++) {
+        snprintf(path, sizeof path, "/ietf-yang-library:yang-library/module-set[1]/%s", lists[k]);
+        if (lyd_find_xpath(yl, path, &set)) { oput("?"); continue; }
+        oput("%s%s=", k ? "|" : "", k ? "i" : "m");
+        first = 1;
+        for (i = 0; i < set->count; i++) {
+            const char *name = NULL, *rev = NULL;
+            int pass, nf;
+
+            e = set->dnodes[i];
+            LY_LIST_FOR(lyd_child(e), ch) {
+                if (!strcmp(ch->schema->name, "name")) name = lyd_get_value(ch);
+                else if (!strcmp(ch->schema->name, "revision")) rev = lyd_get_value(ch);
+            }
+            if (!name || is_internal(ctx, name)) continue;
+            oput("%s%s@%s", first ? "" : ";", name, (rev && rev[0]) ? rev : "-");
+            first = 0;
+            /* features, submodules, deviations */
+            for (pass = k ? 1 : 0; pass < (k ? 2 : 3); pass++) {
+                const char *what = pass == 0 ? "feature" : (pass == 1 ? "submodule" : "deviation");
+                oput("%s", pass == 0 ? "[" : (pass == 1 ? "{" : "<"));
+                nf = 0;
+                LY_LIST_FOR(lyd_child(e), ch) {
+                    if (strcmp(ch->schema->name, what)) continue;
+                    if (pass == 1) {
+                        LY_LIST_FOR(lyd_child(ch), sc) {
+                            if (!strcmp(sc->schema->name, "name")) oput("%s%s", nf++ ? "," : "", lyd_get_value(sc));
+                        }
+                    } else {
+                        oput("%s%s", nf++ ? "," : "", lyd_get_value(ch));
+                    }
+                }
+                oput("%s", pass == 0 ? "]" : (pass == 1 ? "}" : ">"));
+            }
+        }
+        ly_set_free(set, NULL);
+        set = NULL;
+    }
+    if (!lyd_find_path(yl, "/ietf-yang-library:yang-library/content-id", 0, &e) && e) oput("|id=%s", lyd_get_value(e));
+    else oput("|id=?");
+    lyd_free_all(yl);
+}
+
 static void
 yl_tail(struct ly_ctx *ctx, const char *wdir)
 {
@@ -115,6 +186,7 @@ yl_tail(struct ly_ctx *ctx, const char *wdir)
     uint16_t cc0;
     LY_ERR rc;
 
+    yl_dump(ctx);
     /* Y: rebuilt through the import callback (what the model does) */
     if (ly_ctx_get_yanglib_data(ctx, &yl, "%u", ly_ctx_get_change_count(ctx)) || !yl) { oput(" Y9"); return; }
     if (ly_ctx_new(NULL, LY_CTX_DISABLE_SEARCHDIRS, &c2)) { lyd_free_all(yl); oput(" Y8"); return; }
